@@ -22,6 +22,7 @@ ASSUME Out("confusable", Confusable)
 ASSUME Out("deepobj", DeepObj)
 ASSUME Out("keyed2k", Keyed2K)
 ASSUME Out("mergedocs", MergeDocs)
+ASSUME Out("mergedeep", MergeDeep)
 ASSUME Out("objptr", ObjPtr)
 ASSUME Out("ptrdeep", PtrDeep)
 =============================================================================
